@@ -10,8 +10,10 @@ CONFIGS = {
     "quick": [
         {"name": "n3", "n": 3, "names": ["x", "cx", "ccx", "h", "swap", "barrier"], "L": 4},
         {"name": "n2", "n": 2, "names": ["x", "cx", "h", "swap", "barrier"], "L": 5},
+        {"name": "n5fan", "n": 5, "names": ["fan"], "L": 3},
     ],
     "thorough": [
+        {"name": "n5fan", "n": 5, "names": ["fan"], "L": 4},
         {"name": "n3", "n": 3, "names": ["x", "cx", "ccx", "h", "swap", "barrier"], "L": 5},
         {"name": "n2", "n": 2, "names": ["x", "cx", "h", "swap", "barrier"], "L": 7},
         {"name": "n3z", "n": 3, "names": ["x", "cx", "ccx", "z", "cz", "barrier"], "L": 4},
